@@ -132,3 +132,22 @@ Proof.
   eapply onpath_field with (n := 1); [reflexivity|left; reflexivity|].
   apply onpath_here. reflexivity.
 Qed.
+
+(* a self-recursive class (however the recursion is spelled: class name, forward reference or typing.Self, the
+   model has one type for it): Node(nxt: Optional[Node], kids: List[Node]), opted in, with hooks.  C19_trace_partial
+   and C19_context cover it without any depth bound; the token reaches the innermost node. *)
+Definition E_ex4 : env :=
+  [ Build_cinfo [Build_field 0 (TOpt (TDc 0)) true; Build_field 1 (TList (TDc 0)) false] true true false false true ].
+Definition v_ex4 : val :=
+  VInst 0 1 1 [(0, VInst 0 2 2 [(0, VNone); (1, VList [VInst 0 3 3 [(0, VNone); (1, VList [])]])]); (1, VList [])].
+Example C19_context_recursive_nonvacuous :
+  env_union_free E_ex4 = true /\ wt E_ex4 v_ex4 (TDc 0) = true /\ onpath E_ex4 true v_ex4 0 3 3 /\
+  pack E_ex4 true Mixin v_ex4 (TDc 0) true CTok
+  = (true, [Pre 0 1 CTok; Pre 0 2 CTok; Pre 0 3 CTok; Post 0 3 CTok; Post 0 2 CTok; Post 0 1 CTok]).
+Proof.
+  repeat split; try (vm_compute; reflexivity).
+  eapply onpath_field with (n := 0); [reflexivity|left; reflexivity|].
+  eapply onpath_field with (n := 1); [reflexivity|right; left; reflexivity|].
+  eapply onpath_list with (x := VInst 0 3 3 [(0, VNone); (1, VList [])]); [left; reflexivity|].
+  apply onpath_here. reflexivity.
+Qed.
